@@ -753,6 +753,19 @@ pub fn run(cx: &mut Ctx) {
             check_2822_obsolete(cx, &mut r);
         }
     }
+    // %Q / %:Q with every zone identifier of the system database (every character class an identifier can have:
+    // '+', '-', '_', digits, three components)
+    for (i, (name, _)) in crate::zones::system().iter().enumerate() {
+        if !cx.mine(i as u64) {
+            continue;
+        }
+        if let Ok(tz) = TimeZone::get(name) {
+            if tz.iana_name() == Some(name.as_str()) {
+                check_zoned(cx, 1_720_000_000 * NS + 123_456_789, 0, Some(&tz));
+                cx.count("zone_identifiers_through_%Q", 1);
+            }
+        }
+    }
     // RFC 2822 at every day boundary of years 1900..2100, to the minute
     let mut k = 0u64;
     for day in cal::days_from_civil(1900, 1, 1)..cal::days_from_civil(2100, 1, 1) {
